@@ -71,6 +71,19 @@ CHECKS = {
                     "files_compressed", "files_uncompressed", "zoom_records_decoded"],
         "assumptions": E1_ASSUME + ["miniz_oxide is the independent zlib implementation"],
     },
+    "C12": {
+        "level": "model_checking",
+        "bin": "vloom",
+        "engine_name": "vloom",
+        "technique": "exhaustive interleaving exploration (loom DPOR, no preemption bound) of the real tempfilebuffer.rs source with its sync imports rewritten to loom's",
+        "rule": "every scenario = (producer history of 0..n writes of sizes {0,1,3}, optional flush, drop) x staging kind x consumer program (switch+await, closed-write, len+closed-write, switch+poll+await, len, nested zoom pattern with 3 threads); loom enumerates ALL schedules at every Mutex/Condvar/atomic-cell operation of the real code; per execution the destination bytes must equal the bytes written (once, in order), len() must equal the bytes written, no panic, no deadlock. evaluations = scenarios; transitions = complete executions (schedules) explored; states = distinct (scenario, destination write-call pattern) terminal outcomes; every execution is an execution of the implementation",
+        "require": ["executions", "nested_scenarios", "inmemory_scenarios", "tempfile_scenarios", "scenarios_with_2+_delivery_patterns"],
+        "mc_counters": {"states": "distinct_delivery_patterns", "transitions": "executions", "traces": "executions"},
+        "assumptions": ["crossbeam AtomicCell::swap is modelled as an atomic exchange (loom mutex held for the exchange only)",
+                        "loom 0.7.2's DPOR is trusted to enumerate all inequivalent schedules",
+                        "memory orderings weaker than acquire/release on the cell are not explored",
+                        "temp-file staging uses real files (no scheduling points inside file I/O)"],
+    },
 }
 
 HOOKS = {
@@ -82,7 +95,9 @@ HOOKS = {
 }
 
 ENGINES = [
-    {"name": "vh", "path": "/verif/harness/vh", "serves_properties": sorted(CHECKS.keys()),
+    {"name": "vloom", "path": "/verif/harness/vloom", "serves_properties": ["C12"],
+     "kind_free_text": "loom crate whose build.rs copies /repo/bigtools/src/utils/file/tempfilebuffer.rs rewriting only its sync imports; explores every schedule of producer/consumer scenarios"},
+    {"name": "vh", "path": "/verif/harness/vh", "serves_properties": sorted(k for k in CHECKS.keys() if k != "C12"),
      "kind_free_text": "Rust harness linking /repo/bigtools: exhaustive enumerators, reference models, independent decoder; run as supervised partitioned workers by ./check"},
 ]
 
